@@ -122,7 +122,8 @@ pub fn run_sphere(out: &mut Out, rng: &mut Rng, thorough: bool) {
             "single" => 1,
             _ => 3 + rng.below(if rep % 4 == 0 { 40 } else { 8 }) as usize,
         };
-        let scale = [1.0, 1.0, 10.0, 0.01][rng.below(4) as usize];
+        // absolute length scales from 1e-8 to 1e4: a solver must not depend on the unit of length
+        let scale = [1.0, 1.0, 10.0, 0.01, 1e-4, 1e-6, 1e-8, 1e4][rng.below(8) as usize];
         // an offset makes the 4-point circumsphere formula (absolute coordinates) ill-conditioned when the set is small
         let off = if rng.chance(0.3) { DVec3::new(5., -3., 2.) * scale } else { DVec3::ZERO };
         let mut pts: Vec<DVec3> = vec![];
